@@ -521,6 +521,13 @@ func (h *histState) doProbe(i int, op *Op) {
 		}
 		nExec := 0
 		for k, e := range ev {
+			if e.Method == "CheckApplies" && def.Configurable && (cst == "absent" || cst == "legal") && e.Opts != vals.String() && scope != "out" {
+				h.violate(Violation{Property: "C11", Class: "option_values", Lint: n, Op: i, Site: cst,
+					Detail:   "a configurable lint's applicability test ran on an instance holding option values other than those of its section in the registry's configuration (defaults where the section is absent)",
+					Expected: vals.String(), Got: e.Opts})
+				h.violate(Violation{Property: "C04", Class: "not_freshly_configured", Lint: n, Op: i,
+					Detail: "the applicability test ran on an instance that did not hold exactly the registry's current option values", Expected: vals.String(), Got: e.Opts})
+			}
 			if e.Method != "Execute" {
 				continue
 			}
